@@ -303,30 +303,37 @@ class C07(Base):
                     self.own(w, f"cost_below_optimum:{s.cls}", s,
                              f"cost {got} below the reference optimum {exp} "
                              f"for {tag}")
-            key = (s.cls, p.get("d"))
-            cost[key] = (got, s)
+            grp = (s.N, p["s"], p["uf"], p["ub"], p["wd"], p["rd"])
+            cost[(grp, s.cls, p.get("d"))] = (got, s)
             if s.cls == "HRevolve" and (m.disk_writes or p["uf"] != p["ub"]):
                 w.probe("c07_nontrivial_member")
             if s.cls == "HRevolve" and m.disk_writes:
                 w.probe("hrevolve_used_disk")
             if m.reread_disk:
                 w.probe("disk_checkpoint_reread")
-        hs = sorted((k[1], v) for k, v in cost.items() if k[0] == "HRevolve")
-        for (d1, (c1, s1)), (d2, (c2, s2)) in zip(hs, hs[1:]):
-            if c2 > c1:
-                self.own(w, "monotone_d", s2,
-                         f"cost(HRevolve, d={d2}) = {c2} > cost(HRevolve, "
-                         f"d={d1}) = {c1}")
-        dr = cost.get(("DiskRevolve", None))
-        rv = cost.get(("Revolve", None))
-        pd = cost.get(("PeriodicDiskRevolve", None))
-        if dr and rv and dr[0] > rv[0]:
-            self.own(w, "disk_vs_revolve", dr[1],
-                     f"cost(DiskRevolve) = {dr[0]} > cost(Revolve) = {rv[0]}")
-        if dr and pd and pd[0] < dr[0]:
-            self.own(w, "periodic_vs_disk", pd[1],
-                     f"cost(PeriodicDiskRevolve) = {pd[0]} < "
-                     f"cost(DiskRevolve) = {dr[0]}")
+        # inequalities only between members with equal (N, s, costs)
+        for grp in sorted({k[0] for k in cost}):
+            hs = sorted((k[2], v) for k, v in cost.items()
+                        if k[0] == grp and k[1] == "HRevolve")
+            for (d1, (c1, s1)), (d2, (c2, s2)) in zip(hs, hs[1:]):
+                if c2 > c1:
+                    self.own(w, "monotone_d", s2,
+                             f"cost(HRevolve, d={d2}) = {c2} > "
+                             f"cost(HRevolve, d={d1}) = {c1} for N={grp[0]} "
+                             f"s={grp[1]} costs={grp[2:]}")
+            dr = cost.get((grp, "DiskRevolve", None))
+            rv = cost.get((grp, "Revolve", None))
+            pd = cost.get((grp, "PeriodicDiskRevolve", None))
+            if dr and rv and dr[0] > rv[0]:
+                self.own(w, "disk_vs_revolve", dr[1],
+                         f"cost(DiskRevolve) = {dr[0]} > cost(Revolve) = "
+                         f"{rv[0]} for N={grp[0]} s={grp[1]} "
+                         f"costs={grp[2:]}")
+            if dr and pd and pd[0] < dr[0]:
+                self.own(w, "periodic_vs_disk", pd[1],
+                         f"cost(PeriodicDiskRevolve) = {pd[0]} < "
+                         f"cost(DiskRevolve) = {dr[0]} for N={grp[0]} "
+                         f"s={grp[1]} costs={grp[2:]}")
 
     def nontrivial(self, w):
         return w.probes.get("c07_nontrivial_member", 0) > 0
@@ -502,15 +509,18 @@ class C14(Base):
         return Plan(slots)
 
     def check(self, w):
-        ref = None
+        refs = {}
         for s in w.all_slots():
             if s.cls != "Multistage" or not _single_pass_done(s):
                 continue
             p = s.cfg["p"]
             r, d = p["r"], p["d"]
             labels, acc, erased = stack_positions(s.stream)
+            # siblings = equal N, trajectory and (clamped) total unit count
+            grp = (s.N, p["traj"], min(r + d, s.N - 1))
+            ref = refs.get(grp)
             if ref is None:
-                ref = (erased, s)
+                refs[grp] = (erased, s)
             elif erased != ref[0]:
                 j = next((i for i, (x, y) in enumerate(zip(erased, ref[0]))
                           if x != y), min(len(erased), len(ref[0])))
@@ -589,7 +599,8 @@ class C16(Base):
     def check(self, w):
         slots = {s.sid: s for s in w.all_slots()}
         a, b = slots.get(0), slots.get(1)
-        if a is not None and b is not None:
+        if a is not None and b is not None and a.cfg == b.cfg \
+                and a.how is not None and b.how is not None:
             if a.stream != b.stream or a.how != b.how:
                 j = next((i for i, (x, y) in
                           enumerate(zip(a.stream, b.stream)) if x != y),
@@ -727,7 +738,7 @@ class C19(Base):
                          f"c={c}, uf={p['uf']} wd={p['wd']} rd={p['rd']}")
             if len(writes_fwd) >= 2:
                 obs = writes_fwd[1] - writes_fwd[0]
-                seen_m[N] = obs
+                seen_m.setdefault((c, p["uf"], p["wd"], p["rd"]), {})[N] = obs
                 w.probe("c19_two_disk_checkpoints")
             for k in writes_fwd:
                 if loads.get(k, 0) != 1:
@@ -762,10 +773,12 @@ class C19(Base):
                                  f"segment [{a0},{a0 + L}) reversed with "
                                  f"{got} forward steps, the Revolve optimum "
                                  f"with {c} units is {exp} (N={N})")
-        if len(set(seen_m.values())) > 1:
-            s = w.all_slots()[0]
-            self.own(w, "period_depends_on_n", s,
-                     f"observed periods per N: {seen_m}")
+        for grp, per_n in seen_m.items():
+            if len(set(per_n.values())) > 1:
+                s = w.all_slots()[0]
+                self.own(w, "period_depends_on_n", s,
+                         f"observed periods per N for c={grp[0]}, "
+                         f"uf={grp[1]} wd={grp[2]} rd={grp[3]}: {per_n}")
 
     def nontrivial(self, w):
         return w.probes.get("c19_two_disk_checkpoints", 0) > 0
